@@ -90,7 +90,7 @@ def build_ocaml():
     srcs = [os.path.join(VERIF, "ocaml", f) for f in os.listdir(os.path.join(VERIF, "ocaml"))
             if f.endswith((".ml", ".v", ".sh")) and f not in ("model.ml",)]
     vos = [os.path.join(COQ, f) for f in os.listdir(COQ) if f.endswith(".vo")]
-    targets = [os.path.join(BUILD, t) for t in ("flatrun", "treerun", "indexrun", "rorun", "crashrun", "codecrun", "histrun", "histtreerun", "faultrun", "iterrun", "syncrun", "concrun", "refsrun", "ownersrun", "opsrun")]
+    targets = [os.path.join(BUILD, t) for t in ("flatrun", "treerun", "indexrun", "rorun", "crashrun", "codecrun", "histrun", "histtreerun", "faultrun", "iterrun", "syncrun", "concrun", "refsrun", "ownersrun", "opsrun", "batchbufrun")]
     if all(os.path.exists(t) for t in targets) and \
             min(os.path.getmtime(t) for t in targets) > newest_mtime(srcs + vos):
         return True, "up to date"
@@ -373,6 +373,20 @@ def sig_first_round(case, mis):
     return "spec:first-round-unopenable" in mis["kinds"] and not any(k.startswith("model:") for k in mis["kinds"])
 
 
+def sig_nosync_partial_writeback(case, mis):
+    """Mixed workload (synced rounds, then rounds with StorePersistOptions.NoSync), machine crash in the
+    NoSync phase with SOME of the un-synced pages written back: a NoSync round's footer is written without
+    the barrier, so it can be on disk without its data."""
+    return all(k.endswith("-nosync-partial-writeback") for k in mis["kinds"]) and len(mis["kinds"]) > 0
+
+
+def sig_sync_opted_out(case, mis):
+    """Mixed workload whose NoSync phase runs a full compaction while every compaction sync was switched
+    off explicitly (CompactionSync false, CompactionSyncAfterBytes < 0): the new file is never synced and
+    the old one, which held the synced rounds, is unlinked."""
+    return all(k.endswith("-sync-opted-out") for k in mis["kinds"]) and len(mis["kinds"]) > 0
+
+
 def sig_file_switch(case, mis):
     """A round kept nothing of the old footer (every collection with persisted data was dropped),
     the store started a new data file without compacting, and the old file was never unlinked."""
@@ -395,7 +409,8 @@ def sig_ops_first_round(case, mis):
 
 
 SIGNATURES = {"stale-files-after-file-switch": sig_file_switch, "ops-two-failures-stale-newer-file": sig_ops_two_failures,
-              "ops-first-round-unopenable": sig_ops_first_round, "first-round-unopenable": sig_first_round, "nilmerge-iter": sig_nilmerge_iter, "zero-gauges-child-existence": sig_child_existence}
+              "ops-first-round-unopenable": sig_ops_first_round, "first-round-unopenable": sig_first_round, "nosync-partial-writeback": sig_nosync_partial_writeback,
+              "compaction-sync-opted-out": sig_sync_opted_out, "nilmerge-iter": sig_nilmerge_iter, "zero-gauges-child-existence": sig_child_existence}
 
 
 def match_known(pid, case, mis, known):
